@@ -2,5 +2,5 @@
 # usage: tools/seeds_all.sh [parallel=2]  - re-runs the owning property's quick check against every registered seeded change
 par=${1:-2}
 cd "$(dirname "$0")/.."
-for d in seeded/C*/; do n=$(basename $d); p=${n%%-*}; extra=""; [ "$n" = "C13-5" ] && extra="--checks C14"; echo "$p $d $n --skip-tests $extra"; done | \
+for d in seeded/C*/; do n=$(basename $d); p=${n%%-*}; extra=""; [ "$n" = "C13-5" ] && extra=" --checks C14"; echo "$p $d $n --skip-tests$extra"; done | \
   xargs -P $par -L 1 bash -c 'tools/seedcheck.py "$@" > /tmp/seedsall-$3.log 2>&1; echo "$3: $(grep -E "^->" /tmp/seedsall-$3.log)"' _
